@@ -711,3 +711,46 @@ func ruleOMEmptiness(c *Ctx, r *Report) {
 		r.Und("ytypes.retrieveNodeContainer:struct-zero-test", c.Pos(f.Decl.Pos()), "the post-delete struct-zero test of the arm admitting lists was not found")
 	}
 }
+
+// ---- R-PATH-PREFIX-BOUNDARY (C22, C23) ---------------------------------------------------------
+
+// rulePathPrefixBoundary: gnmidiff decides "this leaf lies at or below that path" on path strings.
+// A plain string prefix test also holds for a sibling whose name merely starts with the last
+// element's name (/e/id vs /e/id-type). A variable prefix must therefore be extended with the
+// element separator in the test (the equal-path case being tested separately).
+func rulePathPrefixBoundary(c *Ctx, r *Report) {
+	r.Rule("R-PATH-PREFIX-BOUNDARY", "in package gnmidiff every strings.HasPrefix / trie prefix search with a non-constant path prefix appends the element separator \"/\" to it, so that a path is matched only at element boundaries", 2)
+	n := 0
+	for _, f := range c.AllFuncs("gnmidiff") {
+		info := f.Info()
+		ast.Inspect(f.Decl.Body, func(x ast.Node) bool {
+			call, ok := x.(*ast.CallExpr)
+			if !ok {
+				return true
+			}
+			fn := FullName(Callee(info, call))
+			var prefix ast.Expr
+			switch {
+			case fn == "strings.HasPrefix" && len(call.Args) == 2:
+				prefix = call.Args[1]
+			case strings.HasSuffix(fn, ".PrefixSearch") && len(call.Args) >= 1:
+				prefix = call.Args[0]
+			default:
+				return true
+			}
+			if tv, ok := info.Types[prefix]; ok && tv.Value != nil {
+				return true // constant prefix
+			}
+			n++
+			good := false
+			if be, ok := ast.Unparen(prefix).(*ast.BinaryExpr); ok && be.Op == token.ADD {
+				if v, isC := ConstOf(info, be.Y); isC && strings.HasSuffix(strings.Trim(v, `"`), "/") {
+					good = true
+				}
+			}
+			r.Check(good, fmt.Sprintf("%s:path-prefix#%d", f.Name, n), c.Pos(call.Pos()), "prefix extended with the element separator",
+				f.Name+" tests "+types.ExprString(call)+": a string prefix without the trailing \"/\" also matches a sibling whose name begins with the last element's name (…/id vs …/id-type), so leaves outside the path are treated as lying below it")
+			return true
+		})
+	}
+}
